@@ -138,7 +138,7 @@ class SeqV:
                 out = self.items[k] if out is None else ite(i == k, self.items[k], out)
             if out is None:
                 # only reachable under a vacuous range guard (0 <= i < 0)
-                return z3.Const("undef!elem", U)
+                return UNDEF
             return out
         return self.getter(i)
 
@@ -175,6 +175,17 @@ class SeqV:
 @dataclass
 class Ref:
     n: int
+
+
+class UndefV:
+    """element of an empty concrete list read at a symbolic index: only reachable under a
+    vacuous range guard (0 <= i < 0); every observation of it is an arbitrary constant"""
+
+    def __repr__(self):
+        return "<undef>"
+
+
+UNDEF = UndefV()
 
 
 @dataclass
@@ -342,6 +353,10 @@ def ite(c, a, b):
         return b
     if a is b:
         return a
+    if isinstance(a, UndefV):
+        return b
+    if isinstance(b, UndefV):
+        return a
     if isinstance(a, tuple) and isinstance(b, tuple) and len(a) == len(b):
         return tuple(ite(c, x, y) for x, y in zip(a, b))
     if isinstance(a, OptV) or isinstance(b, OptV):
@@ -365,6 +380,8 @@ def ite(c, a, b):
 
 def eq(a, b):
     """Python `==` / `is` on modelled values -> python bool or z3 Bool"""
+    if isinstance(a, UndefV) or isinstance(b, UndefV):
+        return False
     if isinstance(a, OptV) or isinstance(b, OptV):
         if a is None:
             return b.isnone
@@ -608,6 +625,8 @@ class Engine:
             return v.length > 0
         if isinstance(v, (ExcV, ClassV, FuncV, GlobalV, BoundV)):
             return True
+        if isinstance(v, UndefV):
+            return False
         if isinstance(v, LazyComp):
             from pyvc.builtins_ import lazy_len
 
@@ -1430,11 +1449,13 @@ class Engine:
         if isinstance(op, (ast.In, ast.NotIn)):
             r = self.contains(st, b, a)
             return r if isinstance(op, ast.In) else z3_not(r)
+        if isinstance(a, UndefV) or isinstance(b, UndefV):
+            return False
         la, lb = lift(a), lift(b)
         if isinstance(a, OptV) or isinstance(b, OptV):
             # comparison with None raises TypeError in Python: obligation that neither is None
             for x in (a, b):
-                if isinstance(x, OptV):
+                if isinstance(x, OptV) and not st.env.get("__spec__"):
                     self.oblige(st, "safety.no-None-ordering", z3_not(x.isnone), "safety")
             la = lift(a.val if isinstance(a, OptV) else a)
             lb = lift(b.val if isinstance(b, OptV) else b)
@@ -1597,6 +1618,8 @@ class Engine:
         return out
 
     def getitem(self, st, o, k, node):
+        if isinstance(o, UndefV):
+            return [(st, o, None)]
         if isinstance(o, tuple):
             if isinstance(k, int):
                 return [(st, o[k], None)]
@@ -1678,6 +1701,10 @@ class Engine:
             seq = self.as_seq(s, it)
             if seq.items is not None:
                 out.extend(self._comp_concrete(node, g, s, seq.items))
+            elif kind == "list" and not g.ifs:
+                # unfiltered list comprehension over a symbolic sequence: an element-wise map
+                lz = LazyComp(node, g, seq, dict(s.env))
+                out.append((s, self.new_list(s, SeqV(seq.length, lambda i, lz=lz, s=s: self.comp_elem(s, lz, i)[1])), None))
             else:
                 out.append((s, LazyComp(node, g, seq, dict(s.env)), None))
         return out
